@@ -69,6 +69,7 @@ class Gen:
         self.in_try = False
         self.ctx = ''             # '' ordinary, '@' you, '!' defeat
         self.budget = 0
+        self.bumpers = []         # (function name, global it modifies, global's type)
 
     # ------------------------------------------------------------ helpers
     def fresh(self, p='v'):
@@ -206,7 +207,29 @@ class Gen:
     def nonconst_int(self):
         return self.var_of('int') or self.var_of('byte') or None
 
+    def interference(self):
+        """a global read next to a call that assigns it: evaluation order becomes visible"""
+        cands = [b for b in self.bumpers if b[2] == 'int' and not self.in_spec and self.cur is not None and self.cur.name != b[0]]
+        if not cands:
+            return None
+        fn, g, _ = self.r.choice(cands)
+        op = self.r.choice(['+', '-', '*', '+', '-'])
+        c = self.r.random()
+        if c < 0.4:
+            return '(%s %s %s())' % (g, op, fn)
+        if c < 0.6:
+            return '(%s() %s %s)' % (fn, op, g)
+        if c < 0.75:
+            return '((%s %s %s()) %s %s)' % (g, op, fn, self.r.choice(['+', '-']), g)
+        if c < 0.9:
+            return '((%s %s %s()) is int)' % (g, self.r.choice(['<', '>', '==', '!=', '<=', '>=']), fn)
+        return '(%s / (%s() %% 5 + 7))' % (g, fn)
+
     def int_expr(self, depth, deep):
+        if deep and self.bumpers and self.chance(0.12):
+            e = self.interference()
+            if e:
+                return e
         if not deep or self.chance(0.3):
             return self.int_atom()
         c = self.r.random()
@@ -483,8 +506,10 @@ class Gen:
         c = self.r.random()
         if c < 0.5:
             n = self.r.randrange(1, 6)
+            if el == 'bool' and self.chance(0.35):
+                n = self.r.randrange(7, 19)      # bool arrays are bit-packed: cross byte boundaries
             const = self.chance(0.3)
-            lit, n = self.array_literal(el, n, 1)
+            lit, n = self.array_literal(el, n, 1 if n < 7 else 2)
             self.emit('%s%s[] %s = %s;' % ('const ' if const else '', el, name, lit), ind)
             self.declare(Var(name, Arr(el, const), True, n))
         elif c < 0.8:
@@ -732,6 +757,18 @@ class Gen:
                     self.emit('%s%s[] %s = [%s];' % ('const ' if const else '', el, name, ', '.join(lits() for _ in range(n))), 0)
                     self.globals.append(Var(name, Arr(el, const), True, n, True, True))
         self.emit('', 0)
+        # functions that assign a global and return something derived from it
+        if 'globals' in f and 'calls' in f:
+            for v in [v for v in self.globals if v.type == 'int' and not v.const][:2]:
+                name = 'bump%d' % len(self.bumpers)
+                k = r.choice([1, 2, 5, 10])
+                self.emit('int %s() { %s = %s %s %d; return %s %s %d; }' % (name, v.name, v.name, r.choice(['+', '*', '-']), k, v.name, r.choice(['-', '+']), r.choice([0, 1, 3])), 0)
+                self.bumpers.append((name, v.name, 'int'))
+            for v in [v for v in self.globals if isinstance(v.type, Arr) and v.type.el == 'int' and not v.type.const][:1]:
+                name = 'abump%d' % len(self.bumpers)
+                self.emit('int %s() { %s[0] = %s[0] + 3; return %s[0]; }' % (name, v.name, v.name, v.name), 0)
+                self.bumpers.append((name, '%s[0]' % v.name, 'int'))
+            self.emit('', 0)
         # functions: declared before use in generation order (acyclic calls)
         nf = r.randrange(0, 4) if 'calls' in f else 0
         for k in range(nf):
